@@ -1322,7 +1322,7 @@ class TupleParser:
         array_size = attrl.get('ARRAYSIZE', None)
         if array_size is not None:
             # Issue #1044: Clarify if hex support is needed.
-            array_size = int(array_size)
+            array_size = self.unpack_array_size(tup_tree, array_size)
 
         scopes = None
         value = None
@@ -1516,7 +1516,7 @@ class TupleParser:
         array_size = attrl.get('ARRAYSIZE', None)
         if array_size is not None:
             # Issue #1044: Clarify if hex support is needed.
-            array_size = int(array_size)
+            array_size = self.unpack_array_size(tup_tree, array_size)
 
         embedded_object = False
         if 'EmbeddedObject' in attrl or 'EMBEDDEDOBJECT' in attrl:
@@ -1723,7 +1723,7 @@ class TupleParser:
         array_size = attrl.get('ARRAYSIZE', None)
         if array_size is not None:
             # Issue #1044: Clarify if hex support is needed
-            array_size = int(array_size)
+            array_size = self.unpack_array_size(tup_tree, array_size)
 
         qualifiers = self.list_of_matching(tup_tree, ('QUALIFIER',))
 
@@ -1762,7 +1762,7 @@ class TupleParser:
         array_size = attrl.get('ARRAYSIZE', None)
         if array_size is not None:
             # Issue #1044: Clarify if hex support is needed
-            array_size = int(array_size)
+            array_size = self.unpack_array_size(tup_tree, array_size)
 
         qualifiers = self.list_of_matching(tup_tree, ('QUALIFIER',))
 
@@ -2442,6 +2442,28 @@ class TupleParser:
         raise CIMXMLParseError(
             _format("Invalid CIM type found: {0!A}", cimtype),
             conn_id=self.conn_id)
+
+    def unpack_array_size(self, tup_tree, data):
+        """
+        Unpack the string value of an ARRAYSIZE attribute and return it as an
+        integer.
+
+        Parameters:
+
+          tup_tree (tuple): The element that has the attribute (for messages).
+
+          data (str): Attribute value. Must not be None.
+        """
+        try:
+            return int(data)
+        except ValueError:
+            new_exc = CIMXMLParseError(
+                _format("Element {0!A} has an invalid value {1!A} for its "
+                        "'ARRAYSIZE' attribute (must be a decimal integer)",
+                        name(tup_tree), data),
+                conn_id=self.conn_id)
+            new_exc.__cause__ = None
+            raise new_exc
 
     def unpack_boolean(self, data):
         """
